@@ -76,7 +76,7 @@ def main(a):
         meta['confirmed'] = bool(meta['tests_pass'] and rc1 != 0 and rc0 == 0)
         det = {}
         for c in checks:
-            cenv = dict(os.environ, VP_REPO_ROOT=wt, VP_CONFIRM='2')
+            cenv = dict(os.environ, VP_REPO_ROOT=wt, VP_CONFIRM='2', VP_EVIDENCE_DIR=wt + '.evidence', VP_REPLAY_DIR=wt + '.replays')
             cenv.pop('PYTHONPATH', None)
             tier = 'quick'
             if ':' in c:
@@ -111,6 +111,8 @@ def main(a):
     finally:
         sh('git -C /repo worktree remove --force %s' % wt)
         shutil.rmtree(wt, ignore_errors=True)
+        shutil.rmtree(wt + '.evidence', ignore_errors=True)
+        shutil.rmtree(wt + '.replays', ignore_errors=True)
     return 0
 
 
